@@ -317,6 +317,15 @@ def gen_case(rng, tier, bigbuf=False):
     chosen = sorted(g for g in interesting if rng.chance(dens))
     if len(chosen) > (8 if big else 40):
         chosen = sorted(rng.sample(chosen, 8 if big else 40))
+    hole = None
+    if ntab >= 2 and rng.chance(0.3):
+        # an L1 hole (no table for a whole L2 range) directly in front of a range that starts with data
+        hole = rng.randrange(0, ntab - 1)
+        chosen = [g for g in chosen if g // l2n != hole]
+        for g in ((hole + 1) * l2n, (hole + 1) * l2n + 1):
+            if g < nclusters and g not in chosen:
+                chosen.append(g)
+        chosen.sort()
     # placement
     place = rng.weighted([("asc", 3), ("desc", 2), ("random", 3), ("gaps", 2), ("4g", 1), ("4g+", 1), ("16t", 1)])
     meta_place = rng.weighted([("low", 5), ("4g+", 1), ("16t", 1)])
@@ -327,7 +336,7 @@ def gen_case(rng, tier, bigbuf=False):
     tabs_needed = sorted({g // l2n for g in chosen})
     # some L1 entries with a table but no clusters, some absent
     for k in range(ntab):
-        if k not in tabs_needed and rng.chance(0.3):
+        if k not in tabs_needed and k != hole and rng.chance(0.3):
             tabs_needed.append(k)
     order = list(tabs_needed)
     rng.shuffle(order)
